@@ -181,17 +181,10 @@ func (m *maxInflightWrapper) SetLimit(acquireResult *AcquireResult) bool {
 
 		m.lock.Lock()
 		if atomic.LoadUint32(&m.serverUnavailable) == 0 {
-			inflight := m.meter.MaxInflight()
-			localMax := m.fcc.local.localConfig.MaxRequestsInflight.Max
-			if inflight < localMax {
-				inflight = localMax
-			}
-			if inflight > m.max {
-				inflight = m.max
-			}
+			inflight := m.fallbackLimit()
 			klog.V(2).Infof("[global maxInflight] cluster=%q resize flowcontrol=%s max=%v for error: %v",
 				m.fcc.cluster, m.fcc.name, inflight, result.Error)
-			m.FlowControl.Resize(uint32(inflight), 0)
+			m.FlowControl.Resize(inflight, 0)
 			atomic.StoreUint32(&m.serverUnavailable, 1)
 		}
 		m.lock.Unlock()
@@ -242,7 +235,23 @@ func (m *maxInflightWrapper) Resize(max uint32, burst uint32) bool {
 	if atomic.LoadUint32(&m.serverUnavailable) == 0 {
 		return m.FlowControl.Resize(uint32(m.reserve), 0)
 	}
-	return true
+	// the limits changed while the limiter server is unavailable: the fallback limit follows them
+	return m.FlowControl.Resize(m.fallbackLimit(), 0)
+}
+
+// fallbackLimit is the limit enforced while the limiter server is unavailable: the recently
+// observed usage, at least the local limit and never more than the global one.
+// m.lock must be held.
+func (m *maxInflightWrapper) fallbackLimit() uint32 {
+	inflight := m.meter.MaxInflight()
+	localMax := m.fcc.local.localConfig.MaxRequestsInflight.Max
+	if inflight < localMax {
+		inflight = localMax
+	}
+	if inflight > m.max {
+		inflight = m.max
+	}
+	return uint32(inflight)
 }
 
 func (m *maxInflightWrapper) TryAcquire() bool {
@@ -385,22 +394,10 @@ func (m *tokenBucketWrapper) SetLimit(acquireResult *AcquireResult) bool {
 		}
 		m.lock.Lock()
 		if atomic.LoadUint32(&m.serverUnavailable) == 0 {
-			lastQPS := m.meter.Rate()
-			localQPS := m.fcc.local.localConfig.TokenBucket.QPS
-			if lastQPS < float64(localQPS) {
-				lastQPS = float64(localQPS)
-			}
+			qps, burst := m.fallbackLimit()
 			klog.V(2).Infof("[global tokenBucket] cluster=%q resize flowcontrol=%s qps=%v requestID=%v for error: %v",
-				m.fcc.cluster, m.fcc.name, lastQPS, acquireResult.requestTime, result.Error)
+				m.fcc.cluster, m.fcc.name, qps, acquireResult.requestTime, result.Error)
 
-			// the measured rate includes bursts, it must not lift the limit above the global one
-			qps, burst := uint32(lastQPS), uint32(lastQPS)
-			if qps > m.qps {
-				qps = m.qps
-			}
-			if burst > m.burst {
-				burst = m.burst
-			}
 			m.FlowControl.Resize(qps, burst)
 			atomic.StoreUint32(&m.serverUnavailable, 1)
 		}
@@ -452,7 +449,27 @@ func (m *tokenBucketWrapper) Resize(qps uint32, burst uint32) bool {
 	if atomic.LoadUint32(&m.serverUnavailable) == 0 {
 		return m.FlowControl.Resize(qps, burst)
 	}
-	return false
+	// the limits changed while the limiter server is unavailable: the fallback limit follows them
+	return m.FlowControl.Resize(m.fallbackLimit())
+}
+
+// fallbackLimit is the bucket enforced while the limiter server is unavailable: the recently
+// measured rate, at least the local qps and never more than the global limit (the measured
+// rate includes bursts). m.lock must be held.
+func (m *tokenBucketWrapper) fallbackLimit() (qps uint32, burst uint32) {
+	lastQPS := m.meter.Rate()
+	localQPS := m.fcc.local.localConfig.TokenBucket.QPS
+	if lastQPS < float64(localQPS) {
+		lastQPS = float64(localQPS)
+	}
+	qps, burst = uint32(lastQPS), uint32(lastQPS)
+	if qps > m.qps {
+		qps = m.qps
+	}
+	if burst > m.burst {
+		burst = m.burst
+	}
+	return qps, burst
 }
 
 func (m *tokenBucketWrapper) TryAcquire() bool {
